@@ -12,7 +12,7 @@ Spec == Init /\ [][Next]_lvars
 Expected == LET RECURSIVE R(_, _)
                 R(j, acc) == IF j > Len(hist) THEN acc
                              ELSE IF hist[j].a = "clear" THEN R(j + 1, <<>>)
-                             ELSE IF hist[j].a \in {"hl", "ll"} /\ hist[j].o # BadOpt THEN R(j + 1, Append(acc, F(hist[j].g, hist[j].o)))
+                             ELSE IF hist[j].a \in {"hl", "ll", "ex"} /\ hist[j].o # BadOpt THEN R(j + 1, Append(acc, F(hist[j].g, hist[j].o)))
                              ELSE R(j + 1, acc)
             IN R(1, <<>>)
 AppendOnly == buf = Expected
